@@ -21,3 +21,7 @@ MUTANTS.append(dict(name="array-items-expanded-unless-object", file='types/resol
 MUTANTS.append(dict(name="mapping-fallback-folded-into-elif-chain", file='core/parsing/transformers/discriminator_enum_collector.py', expect="R14.8", old='            if not resolved_enum_values and variant_schema.name in discriminator_value_by_variant:\n', new='            elif variant_schema.name in discriminator_value_by_variant:\n'))
 MUTANTS.append(dict(name='union-variants-tried-in-reverse', file='core/cattrs_converter.py', expect='R14.9', old='        for variant in dataclass_variants:\n', new='        for variant in reversed(dataclass_variants):\n'))
 MUTANTS.append(dict(name='mapping-keeps-ref-values-only', file='core/parsing/schema_parser.py', expect='R14.10', old='                mapping = dict(disc_node["mapping"])\n', new='                mapping = {k: v for k, v in disc_node["mapping"].items() if v.startswith("#/")}\n'))
+MUTANTS.append(dict(name='union-type-rebound-before-metadata-lookup', file='core/cattrs_converter.py', expect='R14.11', old='                # First arg is the actual Union, rest are metadata\n                actual_union = annotated_args[0]\n                args = get_args(actual_union)\n', new='                # First arg is the actual Union, rest are metadata (keep the bare Union for error messages)\n                union_type = annotated_args[0]\n                args = get_args(union_type)\n'))
+MUTANTS.append(dict(name='annotated-union-member-unwrapped', file='core/cattrs_converter.py', expect='R14.11', old='\n    for arg in args:\n', new='\n    for arg in args:\n        if get_origin(arg) is Annotated:\n            # A member written as Annotated[T, ...] is classified (dataclass / dict / other) by T itself\n            arg = get_args(arg)[0]\n'))
+MUTANTS.append(dict(name='required-of-propertyless-allof-member-ignored', file='core/parsing/keywords/all_of_parser.py', expect='R14.12', old='        if sub_schema_ir.required:\n            merged_required.update(sub_schema_ir.required)\n', new='            if sub_schema_ir.required:\n                merged_required.update(sub_schema_ir.required)\n'))
+MUTANTS.append(dict(name='required-nullable-field-gets-default', file='visit/model/dataclass_generator.py', expect='R14.12', old='                if not is_required:\n', new='                if not is_required or prop_schema.is_nullable:\n'))
